@@ -420,7 +420,9 @@ pub fn run(check: &mut Check) {
         let mut jobs = vec![];
         let mut meta2 = vec![];
         for (ci, c) in cfgs.iter().enumerate() {
-            if is_huge(c) {
+            // (quick: the two 1 GiB configurations with map-populate, which prefault the whole file at
+            // every open, are left to the thorough tier)
+            if is_huge(c) && !(tier == Tier::Quick && c.populate) {
                 jobs.push(json!({"cfg": ci}).to_string());
                 meta2.push(format!("cfg {}", ci));
             }
@@ -438,6 +440,7 @@ pub fn run(check: &mut Check) {
     check.cov("distinct_nontrivial", json!(configs_done));
     check.cov("rule", json!("one evaluation = one history executed from a fresh file under one configuration with every return value, every post-commit dump, the independent file check and DB::check() compared with the reference model; distinct_nontrivial = configurations of the product page size x initial pages x strict x populate that ran their full history set (all of them distinct, all non-default except one)"));
     check.cov("configurations", json!(cfgs.len()));
+    check.cov("configurations_run", json!(configs_done));
     check.cov("growth_runs_crossing_extension_steps", json!(growth_runs));
     check.cov("free_list_boundary_runs", json!(flb_runs));
     check.cov("growth_boundary_sweep_runs", json!(gsweep_runs));
